@@ -51,6 +51,11 @@ CHECKS = {
          'Held on N generated routes (core fragment) plus a request-binding workload: both execution modes gave the same status, decoded body and connection fate. Every disagreement is checked against the recorded findings by signature; the recorded ones are listed as KNOWN-FINDING, anything else is a violation.',
          'Trusts the overlay worker wiring and the JSON-level comparison. The core fragment excludes 11 constructs on which the engines are known to differ (recorded findings, each replayed by a directed probe); 5xx bodies are compared as generic.',
          'DESIGN.md §3 C02'),
+ 'C03': ('translation_validation',
+         'differential VM-vs-VM monitor: bytecode compiled at OptBasic / OptAggressive / every JIT tier executed against the OptNone compilation of the same AST (parsed, value-built, pointer-built, mixed form) under several runtime bindings of free variables; directed pointer-form families per optimizer rewrite',
+         'Held (apart from the recorded optimizer findings, which are matched by signature) on N generated programs x 4 AST forms x 3 variable assignments x 6 compilations: same value / error class / status as the unoptimised code, and no level accepted a program another rejected. A safe generator profile keeps the recorded defect shapes out, so that any disagreement there is new.',
+         'Trusts the VM as the common executor and the AST builder (astbuild.go). Side effects other than the returned value/status are not generated (no WebSocket opcodes yet). Recorded: algebraic identities dropping errors, flow-insensitive propagation, status dropped from rewritten returns (pointer-form ASTs only).',
+         'DESIGN.md §3 C03'),
 }
 NA = {}
 for p in props:
